@@ -155,6 +155,34 @@ Section Recover.
     - destruct H as (lx' & E). rewrite E. reflexivity.
   Qed.
 
+  (** the same with a recover-after strategy whose flag is clear when the scan starts: the lexer
+      resumes in front of the token FOLLOWING the first token of the set, and the flag is clear
+      again afterwards *)
+  Theorem recover_default_after f id ks a lx ys c st e st1 : Inv lx ys ->
+    run f a lx c st = (RErr e, st1) -> has_sink c = true -> is_found st1 id = false ->
+    let st2 := st_log st1 (log st1 ++ [apply_trail (trail c) e]) in
+    match find_first ks (kept (c_filter lx) ys) with
+    | Some (_, x, y :: rest) =>
+      exists lx' ys', run (S f) (GRecoverDef (id, RAfter ks) a) lx c st = (ROk VDflt lx', st2)
+        /\ Inv lx' ys' /\ c_filter lx' = c_filter lx /\ kept (c_filter lx) ys' = y :: rest
+    | Some (_, x, []) => run (S f) (GRecoverDef (id, RAfter ks) a) lx c st = (RErr ERecover, set_found st2 id)
+    | None => run (S f) (GRecoverDef (id, RAfter ks) a) lx c st = (RErr ERecover, st2)
+    end.
+  Proof using Htab Ht.
+    intros HI Ha Hs Hnf st2. cbn [run]. rewrite Ha. unfold send_error. rewrite Hs.
+    unfold advance_to_recover. cbn [set_rec c_rec].
+    pose proof (Inv_set_rec lx ys (Some (id, RAfter ks)) HI) as HI0.
+    assert (Hnf2 : is_found st2 id = false) by exact Hnf.
+    pose proof (recover_after_spec id ks (kept (c_filter lx) ys) (fuel_of (set_rec lx (Some (id, RAfter ks))))
+                  (set_rec lx (Some (id, RAfter ks))) ys st2 HI0 eq_refl (kept_length_fuel lx ys HI) Hnf2) as H.
+    fold st2. unfold rref in *. cbn [set_rec c_filter c_rec] in H.
+    destruct (find_first ks (kept (c_filter lx) ys)) as [[[p x] [|y rest]]|].
+    - destruct H as (lx' & E). rewrite E. reflexivity.
+    - destruct H as (lx' & ys' & E & HI' & Hf & _ & Hk). rewrite E. exists lx', ys'.
+      split; [reflexivity|]. split; [exact HI'|]. split; [exact Hf|exact Hk].
+    - destruct H as (lx' & E). rewrite E. reflexivity.
+  Qed.
+
   (** without a sink the parser's own error comes back and nothing else happens *)
   Theorem recover_default_no_sink f r a lx c st e st1 :
     run f a lx c st = (RErr e, st1) -> has_sink c = false ->
